@@ -581,6 +581,13 @@ theorem applyAct_inv_setPanic (s : State) (fh fw : List Nat) (q : Nat) (h : s.In
   · exact Inv_modVal h _ _ (fun _ => rfl) (fun _ => rfl)
   · exact Inv_badRoot h q
 
+theorem applyAct_inv_setShallow (s : State) (fh fw : List Nat) (q : Nat) (h : s.Inv) :
+    (applyAct s fh fw (.setShallow q)).Inv := by
+  simp only [applyAct]
+  split
+  · exact Inv_modVal h _ _ (fun _ => rfl) (fun _ => rfl)
+  · exact Inv_badRoot h q
+
 theorem applyAct_inv_upgradeField (s : State) (fh fw : List Nat) (k : Nat) (h : s.Inv) :
     (applyAct s fh fw (.upgradeField k)).Inv := by
   simp only [applyAct]
